@@ -29,6 +29,8 @@ def run(ctx):
     r2_fresh_listener(ctx, it)
     r3_discipline(ctx)
     r4_verbatim(ctx, it)
+    shared.check_token_ctors_verbatim(ctx, 'R4')     # no token class re-spells / strips the text it is given (ErrorToken's chain included)
+    shared.check_cells_unmodified(ctx, 'R4')
     shared.whole_cell_consumption(ctx, 'R5')
     # every occurrence of a cell is parsed (and, when malformed, reported) on its own; a malformed cell is never a null cell
     from . import c18
